@@ -268,7 +268,12 @@ func reachAvoiding(fn *ssa.Function, start ssa.Instruction, target, barrier func
 	return false
 }
 
-func isReturn(in ssa.Instruction) bool { _, ok := in.(*ssa.Return); return ok }
+// isReturn matches normal returns; the synthetic return of a function's recover block
+// (only reachable after a recovered panic) is not one.
+func isReturn(in ssa.Instruction) bool {
+	_, ok := in.(*ssa.Return)
+	return ok && in.Block() != in.Parent().Recover
+}
 
 // alwaysBefore: every path from entry to `at` passes an instruction satisfying pred first.
 func alwaysBefore(fn *ssa.Function, at ssa.Instruction, pred func(ssa.Instruction) bool) bool {
@@ -435,9 +440,17 @@ func derefStruct(t types.Type) *types.Struct {
 }
 
 func namedOf(t types.Type) *types.Named {
-	t = derefType(t)
-	n, _ := t.(*types.Named)
-	return n
+	for i := 0; i < 4; i++ {
+		if n, ok := t.(*types.Named); ok {
+			return n
+		}
+		p, ok := t.Underlying().(*types.Pointer)
+		if !ok {
+			return nil
+		}
+		t = p.Elem()
+	}
+	return nil
 }
 
 func typeName(t types.Type) string {
